@@ -1,4 +1,4 @@
-add("C10", "checks/c10_queue.c", ["default-asan", "noinfo-asan", "default-plain", "c89-plain"], ["default-asan", "noinfo-asan", "default-plain", "noinfo-plain", "c89-plain", "c99-plain"],
+add("C10", "checks/c10_queue.c", ["default-asan", "noinfo-asan", "default-plain", "c89-plain"], ["default-asan", "noinfo-asan", "default-plain", "noinfo-plain", "c89-plain", "c99-plain", "optmin-plain"],
     "cases: phase 'enumerated' = one block per (capacity N in 1..4, 3-letter prefix) that runs EVERY history of length L over the 7-letter "
     "alphabet {push(-100), push(-200,\"xy\"), push(-100,'p\"q'), SCPI_ErrorPop, SYST:ERR?, SCPI_ErrorClear, count(API + SYST:ERR:COUN?)} with that "
     "prefix (L = 7 quick / 9 thorough in the gcc -O2 build, 7 / 8 under ASan; all shorter histories are prefixes and every operation is "
